@@ -26,7 +26,8 @@
      /\ unlock hash/conditions and window unchanged /\ two valid outputs with unchanged addresses
      /\ valid sum unchanged /\ vr fin <= vr cur /\ vh cur + payment <= vh fin *)
 From HostdBase Require Import Base.
-From HostdRevision Require Import Model Proofs.
+From HostdRevision Require Import Model Proofs GenPrelude ProofsGen.
+From HostdRevision.gen Require Import RevisionGen.
 From HostdRevision Require Legacy.
 Local Open Scope N_scope.
 
@@ -196,3 +197,115 @@ Example c07_nonvacuous :
   /\ validate_clearing ex_cur (R 1 0 0 0 100 200 [O 1 990; O 2 510] [O 1 990; O 2 510] 1 max64) 10 = Ok 10
   /\ validate_revision ex_cur (R 1 0 4194304 1 100 200 [O 1 990; O 2 510] [O 1 990; O 2 380; O 0 130] 1 6) 11 20 = Err EInvalid.
 Proof. exact nonvacuous_ex. Qed.
+
+(** The same theorems about the REGENERATED definitions: gen/RevisionGen.v is written by
+   tools/go2coq from the current rhp/contracts.go at the start of every check run
+   (validateStdRevision, ValidateRevision, ValidateProgramRevision, ValidatePaymentRevision,
+   ValidateClearingRevision, Revise, ClearingRevision are the translated Go functions);
+   GenEquiv.v proves each equal to the hand-written model for all arguments, ProofsGen.v
+   transports the lemmas.  A change of the Go code that changes behaviour breaks these. *)
+
+Theorem c07_gen_validate_revision_sound : forall cur rv payment collateral transfer burn,
+  wf cur -> inrange cur ->
+  ValidateRevision cur rv payment collateral = Ok (transfer, burn) ->
+  safe_revision cur rv payment collateral /\
+  transfer = vh rv - vh cur /\ transfer = vr cur - vr rv /\ burn = mh cur - mh rv /\
+  payment <= transfer /\ burn <= collateral /\
+  wf rv /\ inrange rv.
+Proof. exact gen_validate_revision_safe. Qed.
+Print Assumptions c07_gen_validate_revision_sound.
+
+Theorem c07_gen_validate_program_sound : forall cur rv storage collateral burn,
+  wf cur -> inrange cur ->
+  ValidateProgramRevision cur rv storage collateral = Ok burn ->
+  safe_revision cur rv 0 (storage + collateral) /\
+  burn = mh cur - mh rv /\ burn <= storage + collateral /\ mvoid rv = mvoid cur + burn /\
+  vr rv = vr cur /\ vh rv = vh cur /\ mr rv = mr cur /\
+  wf rv /\ inrange rv.
+Proof. exact gen_validate_program_safe. Qed.
+Print Assumptions c07_gen_validate_program_sound.
+
+Theorem c07_gen_validate_payment_sound : forall cur rv payment,
+  wf cur -> inrange cur ->
+  ValidatePaymentRevision cur rv payment = Ok tt ->
+  safe_revision cur rv payment 0 /\
+  vr rv = vr cur - payment /\ mr rv = mr cur - payment /\ payment <= vr cur /\ payment <= mr cur /\
+  vh rv = vh cur + payment /\ mh rv = mh cur + payment /\
+  wf rv /\ inrange rv.
+Proof. exact gen_validate_payment_safe. Qed.
+Print Assumptions c07_gen_validate_payment_sound.
+
+Theorem c07_gen_validate_clearing_sound : forall cur fin payment toHost,
+  inrange cur -> inrange fin ->
+  ValidateClearingRevision cur fin payment = Ok toHost ->
+  cleared cur fin payment /\ toHost = vh fin - vh cur /\ toHost = vr cur - vr fin /\ payment <= toHost.
+Proof. exact gen_validate_clearing_sound. Qed.
+Print Assumptions c07_gen_validate_clearing_sound.
+
+Theorem c07_gen_validate_std_sound_any_shape : forall cur rv,
+  validateStdRevision cur rv = Ok tt -> std_ok cur rv.
+Proof. exact gen_validate_std_sound. Qed.
+Print Assumptions c07_gen_validate_std_sound_any_shape.
+
+Theorem c07_gen_cleared_is_final : forall cur rv,
+  rnum cur = max64 -> rnum rv <= max64 -> validateStdRevision cur rv <> Ok tt.
+Proof. exact gen_cleared_is_final. Qed.
+Print Assumptions c07_gen_cleared_is_final.
+
+Theorem c07_gen_revise_from_renter_values : forall r num vs ms r',
+  Revise r num vs ms = Ok r' ->
+  rnum r <> max64 /\ rnum r < num /\ rnum r' = num /\
+  map oval (rvalid r') = vs /\ map oval (rmissed r') = ms /\
+  same_but_values r r' /\ map oaddr (rmissed r') = map oaddr (rmissed r) /\
+  rsize r' = rsize r /\ rroot r' = rroot r.
+Proof. exact gen_revise_sound. Qed.
+Print Assumptions c07_gen_revise_from_renter_values.
+
+Theorem c07_gen_clearing_from_renter_values : forall r vs r',
+  ClearingRevision r vs = Ok r' ->
+  rnum r <> max64 /\ rnum r' = max64 /\ rsize r' = 0 /\ rroot r' = 0 /\
+  rmissed r' = rvalid r' /\ map oval (rvalid r') = vs /\ same_but_values r r'.
+Proof. exact gen_clearing_revision_sound. Qed.
+Print Assumptions c07_gen_clearing_from_renter_values.
+
+Theorem c07_gen_revise_then_validate_safe : forall cur num vs ms r payment collateral transfer burn,
+  wf cur -> inrange cur ->
+  Revise cur num vs ms = Ok r ->
+  ValidateRevision cur r payment collateral = Ok (transfer, burn) ->
+  rnum r = num /\ map oval (rvalid r) = vs /\ map oval (rmissed r) = ms /\
+  rsize r = rsize cur /\ rroot r = rroot cur /\ rother r = rother cur /\
+  safe_revision cur r payment collateral /\ wf r.
+Proof. exact gen_revise_then_validate_safe. Qed.
+Print Assumptions c07_gen_revise_then_validate_safe.
+
+Theorem c07_gen_validate_std_no_panic : forall cur rv, validateStdRevision cur rv <> Panic.
+Proof. exact gen_validate_std_no_panic. Qed.
+Print Assumptions c07_gen_validate_std_no_panic.
+
+Theorem c07_gen_validate_revision_no_panic : forall cur rv payment collateral,
+  ValidateRevision cur rv payment collateral <> Panic.
+Proof. exact gen_validate_revision_no_panic. Qed.
+Print Assumptions c07_gen_validate_revision_no_panic.
+
+Theorem c07_gen_validate_program_no_panic : forall cur rv storage collateral,
+  ValidateProgramRevision cur rv storage collateral <> Panic.
+Proof. exact gen_validate_program_no_panic. Qed.
+Print Assumptions c07_gen_validate_program_no_panic.
+
+Theorem c07_gen_validate_payment_no_panic : forall cur rv payment,
+  ValidatePaymentRevision cur rv payment <> Panic.
+Proof. exact gen_validate_payment_no_panic. Qed.
+Print Assumptions c07_gen_validate_payment_no_panic.
+
+Theorem c07_gen_validate_clearing_no_panic : forall cur fin payment,
+  ValidateClearingRevision cur fin payment <> Panic.
+Proof. exact gen_validate_clearing_no_panic. Qed.
+Print Assumptions c07_gen_validate_clearing_no_panic.
+
+Theorem c07_gen_revise_no_panic : forall r num vs ms, Revise r num vs ms <> Panic.
+Proof. exact gen_revise_no_panic. Qed.
+Print Assumptions c07_gen_revise_no_panic.
+
+Theorem c07_gen_clearing_revision_no_panic : forall r vs, ClearingRevision r vs <> Panic.
+Proof. exact gen_clearing_revision_no_panic. Qed.
+Print Assumptions c07_gen_clearing_revision_no_panic.
